@@ -152,6 +152,7 @@ type Interp struct {
 	openOracle   Value
 	hkdfs        []*hkdfRec
 	dhApps       []dhRec
+	schedOff     bool
 	preemptsUsed int
 }
 
